@@ -45,6 +45,35 @@ def collect(rep, tier, rnd):
     return traces, meta
 
 
+def repo_suite(rep):
+    """Every fit / path the repository's own tests perform, validated against TrainTrace (float mode)."""
+    from vf import repotests
+    out = repotests.run_suite()
+    rep.extra["repo_test_suite"] = out["summary"]
+    n = 0
+    for grp in repotests.groups(out["train"]):
+        traces = [t["events"] for t in grp]
+        res = trace.validate("TrainTrace", traces, invariants=["BatchSizeOK", "StepCount", "StepsSoFar"], timeout=6000)
+        rep.add_tlc("TrainTrace", res["result"], note=f"{len(traces)} traces recorded from the repository's own test-suite")
+        rep.traces += len(traces)
+        n += len(traces)
+        for inv, tid in res["inv_violations"]:
+            rep.violation(f"a fit performed by the repository's tests violates {inv}: {grp[tid - 1]['test'] if tid else ''}",
+                          {"test": grp[tid - 1]["test"] if tid else None}, tags=(inv, "repo-tests"))
+        for tid in res["rejected"]:
+            if any(t == tid for _, t in res["inv_violations"]):
+                continue
+            dg = trace.diagnose("TrainTrace", traces, tid)
+            failing = [k for k, v in (dg["diag"] or {}).items() if v is False]
+            if failing and not (set(failing) & OWN):
+                continue
+            ev = dg["event"] or {}
+            rep.violation(f"a fit performed by the repository's tests ({grp[tid - 1]['test']}, {grp[tid - 1]['cls']}) is not a behaviour of "
+                          f"Train: stuck at event #{dg['l']} ({ev.get('e')}), failing clauses {failing}",
+                          {"test": grp[tid - 1]["test"], "diag": {k: v for k, v in dg.items() if k != "event"}}, tags=tuple(failing) + ("repo-tests",))
+    rep.extra["repo_test_traces"] = n
+
+
 def run(tier):
     rep = Report("C10", tier)
     rnd = random.Random(SEED)
@@ -79,6 +108,8 @@ def run(tier):
                       f"failing clauses {failing}", {"meta": m, "trace": traces[tid - 1], "diag": dg}, tags=tuple(failing) + (m["family"].split("/")[0],))
     if traces:
         rep.sample({"meta": meta[0], "events": traces[0][:4]})
+    if tier == "thorough":
+        repo_suite(rep)
     rep.assumptions = ["sample identity is made observable by an id column X[:,0] and (for precomputed/callable affinities) the "
                        "injective matrix Aff(i,j)=i*n+j; for named kernels the recorder compares each block with the full affinity",
                        "recorder wraps instance attribute _batchify and sklearn's BaseOptimizer.update_params (no source hook)"]
